@@ -8,6 +8,7 @@ import (
 	"os/exec"
 	"path/filepath"
 	"strconv"
+	"strings"
 	"sync"
 	"time"
 )
@@ -173,9 +174,14 @@ func (c *Ctx) Fork(n int, bin string, timeout time.Duration, extraEnv ...string)
 					saveArtefact(c.Prop, fmt.Sprintf("shard%d-watchdog", i), "current case: "+cur+"\n"+tail)
 					return
 				}
-				p := saveArtefact(c.Prop, fmt.Sprintf("shard%d-crash", i), "exit status "+strconv.Itoa(code)+"\ncurrent case: "+cur+"\n"+tail)
-				c.Violate(Violation{Kind: "crash", Lane: "worker", What: fmt.Sprintf("worker process died (exit %d) while running case %s; stderr tail: %s", code, trunc(cur, 300), trunc(lastLines(tail, 12), 1500)),
-					Case: map[string]interface{}{"stderr": p, "current": cur}, Key: "worker-died|" + firstFatalLine(tail)})
+				fatal := fatalSection(errf, 8000)
+				p := saveArtefact(c.Prop, fmt.Sprintf("shard%d-crash", i), "exit status "+strconv.Itoa(code)+"\ncurrent case: "+cur+"\n"+fatal+"\n[...]\n"+tail)
+				shown := trunc(fatal, 1500)
+				if shown == "" {
+					shown = trunc(lastLines(tail, 12), 1500)
+				}
+				c.Violate(Violation{Kind: "crash", Lane: "worker", What: fmt.Sprintf("worker process died (exit %d) while running case %s; stderr: %s", code, trunc(cur, 300), shown),
+					Case: map[string]interface{}{"stderr": p, "current": cur}, Key: "worker-died|" + firstFatalLine(fatal+tail)})
 			}
 		}(i)
 	}
@@ -190,6 +196,29 @@ func tailFile(p string, n int) string {
 	}
 	if len(b) > n {
 		b = b[len(b)-n:]
+	}
+	return string(b)
+}
+
+// fatalSection returns up to n bytes of the file starting at the first line that announces the
+// death of the process (a panic, a runtime fatal error, a log.Fatal of the code under test).
+func fatalSection(p string, n int) string {
+	b, err := os.ReadFile(p)
+	if err != nil {
+		return ""
+	}
+	best := -1
+	for _, pre := range []string{"\npanic: ", "\nfatal error: ", "\nunexpected fault address"} {
+		if i := strings.Index(string(b), pre); i >= 0 && (best < 0 || i < best) {
+			best = i + 1
+		}
+	}
+	if best < 0 {
+		return ""
+	}
+	b = b[best:]
+	if len(b) > n {
+		b = b[:n]
 	}
 	return string(b)
 }
